@@ -170,6 +170,35 @@ func rGenTable(rng *rand.Rand, max int) []rRoute {
 		}
 		return []rRoute{{"GET", p + "/*"}, {"GET", "/a/:x"}}
 	}
+	if max >= 5 && rng.Intn(30) == 0 {
+		// a pattern with 5-9 parameters that carries both a method handler and a not-found route (the values of the not-found
+		// route are a snapshot taken while the search goes on), and a less specific route next to it
+		p := "/o"
+		for i, n := 0, 5+rng.Intn(5); i < n; i++ {
+			p += fmt.Sprintf("/:p%d", i)
+		}
+		m1 := []string{"GET", "POST"}[rng.Intn(2)]
+		rs := []rRoute{{m1, p}, {rNF, p}}
+		if rng.Intn(2) == 0 {
+			rs = append(rs, rRoute{[]string{"GET", "POST", rNF}[rng.Intn(3)], "/o/*"})
+		}
+		rng.Shuffle(len(rs), func(i, j int) { rs[i], rs[j] = rs[j], rs[i] })
+		return rs
+	}
+	if max >= 3 && rng.Intn(25) == 0 {
+		// a node whose ONLY handler is one of the rarely used built-in methods, split by a later registration (the flags of the
+		// node are rebuilt from its method table when it is split)
+		m := rAllMethods[rng.Intn(11)]
+		b := []string{"/reports/da", "/ab", "/users/x"}[rng.Intn(3)]
+		rs := []rRoute{{m, b + "ily"}, {[]string{"GET", m, "POST"}[rng.Intn(3)], b + "ta"}}
+		if rng.Intn(2) == 0 {
+			rs = append(rs, rRoute{m, b[:len(b)-1] + "/:x"})
+		}
+		if rng.Intn(2) == 0 {
+			rs[0], rs[1] = rs[1], rs[0]
+		}
+		return rs
+	}
 	if max >= 5 && rng.Intn(3) == 0 {
 		return rGenTemplate(rng)
 	}
